@@ -93,8 +93,9 @@ def _read(path):
 
 def scan(sid, fzf=None):
     """Processes of this session (environment marker FZF_VERIF_SID): returns (fzf_pids, preview process list).
-    A preview process is one fzf started for a command (its environment carries FZF_MATCH_COUNT).  Zombies and
-    processes with SIGKILL already pending are not alive."""
+    A preview process is one fzf started for a preview command (its environment carries FZF_MATCH_COUNT and - what
+    only environForPreview() adds - LINES; the command of a reload has the former only).  Zombies and processes with
+    SIGKILL already pending are not alive."""
     marker = ("FZF_VERIF_SID=" + sid).encode()
     fzfs, prev = [], []
     for p in glob.glob("/proc/[0-9]*"):
@@ -119,6 +120,8 @@ def scan(sid, fzf=None):
                 pending |= int(line.split()[1], 16)
         pid = int(p[6:])
         if any(e.startswith(b"FZF_MATCH_COUNT=") for e in envs):
+            if not any(e.startswith(b"LINES=") for e in envs):
+                continue                                           # the command of a reload, not a preview
             if pending & (1 << (signal.SIGKILL - 1)):
                 continue
             prev.append({"pid": pid, "pgid": pgid, "cmd": cmd.replace(b"\0", b" ").decode(errors="replace")[:80]})
@@ -186,6 +189,10 @@ class Index:
     """Incremental view of the growing hook trace (the sessions log thousands of events; conditions are polled)."""
     def __init__(self, s):
         self.s, self.n, self.counts, self.pv, self.markers, self.last_flush, self.exit_seen = s, 0, {}, [], [], 0, False
+        # input generations: reload actions executed, reader restarts (coord.restart), the list the terminal holds (term.list)
+        self.major, self.reload_acts, self.restarts, self.lists, self.searches = 0, [], [], 0, []
+        self.final_major = 0            # the newest major revision of which the terminal got a list with reading = false
+        self.list_seq, self.render_list_seq = 0, 0    # last Terminal.UpdateList / last reqList handled by the render loop
 
     def update(self):
         tr = self.s.trace()
@@ -197,8 +204,24 @@ class Index:
                 self.pv.append(e)
             elif k == "term.act" and e.get("act") == "change-prompt":
                 self.markers.append(e["seq"])
+            elif k == "term.act" and e.get("act") in ("reload", "reload-sync"):
+                self.reload_acts.append((e["seq"], time.time()))
+            elif k == "coord.restart":
+                self.restarts.append((e["seq"], e["rev"][0]))
+            elif k == "coord.search":
+                self.searches.append(e["seq"])
+            elif k == "term.list":
+                self.lists += 1
+                self.list_seq = e["seq"]
+                if e["rev"][0] != self.major:          # Terminal.UpdateList took over the list of another input generation
+                    self.major = e["rev"][0]
+                    self.counts["list.reload"] = self.counts.get("list.reload", 0) + 1
+                if not e["reading"]:
+                    self.final_major = e["rev"][0]
             elif k == "term.render" and e.get("what") == "flush":
                 self.last_flush = e["seq"]
+            elif k == "term.render" and e.get("what") == "list":
+                self.render_list_seq = e["seq"]
             elif k == "term.exit":
                 self.exit_seen = True
         self.n = len(tr)
@@ -219,6 +242,24 @@ class Index:
                     [{k: v for k, v in e.items() if k not in ("command", "template")} for e in self.pv[-6:]])[:1200]))
             time.sleep(delay)
             delay = min(delay * 1.5, 0.02)
+
+    def reload_state(self, now):
+        """'settled': every reload the terminal executed was taken by the coordinator (a reader restart follows it) and the
+        list of the newest input generation is with the terminal, complete, and the render loop has handled the reqList of
+        the last UpdateList (that is where it decides about a refresh of the preview); 'lost': a reload action was executed but the
+        coordinator - which has served a later search request - never restarted the reader (recorded as it is: the
+        trace says which generation is on display); 'pending' otherwise."""
+        if self.render_list_seq < self.list_seq:
+            return "pending"                 # UpdateList sets reqList: the render loop has not looked at the new list yet
+        if not self.reload_acts:
+            return "settled"
+        a_seq, a_t = self.reload_acts[-1]
+        after = [r for r in self.restarts if r[0] > a_seq]
+        if not after:
+            if now - a_t > 3 and any(x > a_seq for x in self.searches):
+                return "lost" if (not self.restarts or self.final_major >= self.restarts[-1][1]) else "pending"
+            return "pending"
+        return "settled" if self.final_major >= self.restarts[-1][1] else "pending"
 
     def wait_marker(self, n, timeout=120):
         """The n-th marker action has been executed and the render loop has flushed afterwards: everything POSTed
@@ -273,23 +314,44 @@ class Unsettled(Exception):
 
 class Plan:
     """What a session does.  steps: list of dicts
-         {"post": body}                      POST an action chain
+         {"post": body}                      POST an action chain; @R<k> / @S<k> in it stand for reload(CMD) / reload-sync(CMD)
+                                             with a CMD that prints the lines of input generation k (plan.gens[k - 1] lines;
+                                             k = 0: the initial input again); @Rs<k> @Ss<k>: CMD is silent for 0.3 s first;
+                                             @Rp<k> @Sp<k>: CMD prints two lines, pauses 0.3 s, prints the rest
          {"sleep": seconds}                  timing stimulus (never synchronisation)
-         {"until": hook-event}               go on as soon as one more such hook event has been logged
+         {"until": hook-event}               go on as soon as one more such hook event has been logged ("rel": "post": one more
+                                             than before the preceding POST; list.reload = the terminal got another input generation)
          {"burst": body, "until": event}     keep POSTing body until one more such hook event has been logged
        observe: take the quiescence observation before leaving;  leave: abort | accept | sigterm | none(the steps end it)"""
-    def __init__(self, sid, tag, kinds, nitems, steps, observe=True, leave="abort", label="random", lead=0, talls=(1,), layout=0, wrap=False, suffix=""):
+    def __init__(self, sid, tag, kinds, nitems, steps, observe=True, leave="abort", label="random", lead=0, talls=(1,), layout=0, wrap=False, suffix="",
+                 gens=()):
         self.sid, self.tag, self.kinds, self.nitems, self.steps = sid, tag, kinds, nitems, steps
         self.observe, self.leave, self.label, self.lead = observe, leave, label, lead
         self.talls, self.layout, self.wrap = list(talls), layout, wrap         # lines printed at once by item index; LAYOUTS index; wrap mode
         self.suffix = suffix                                                    # appended to every item text (lines wider than the window)
+        self.gens = list(gens)                                                  # number of lines of input generation 1, 2, ... (reload)
 
     def to_json(self):
         return dict(self.__dict__)
 
 
-def item_text(i):
-    return "ab%d" % i
+def item_text(i, g=0):
+    """Line i of input generation g: ANOTHER line at the same index in every generation."""
+    return "ab%d" % i if g == 0 else "a%sb%d" % ("cdefgh"[(g - 1) % 6], i)
+
+
+def gen_texts(plan, g):
+    return [item_text(i, g) + plan.suffix for i in range(plan.nitems if g == 0 else plan.gens[g - 1])]
+
+
+_RELOAD = re.compile(r"@([RS])([sp]?)(\d+)")
+_GENFILE = re.compile(r"gen(\d+)\.txt")
+
+
+def reload_action(m):
+    f = "gen%s.txt" % m.group(3)
+    cmd = {"": "cat %s" % f, "s": "sleep 0.3; cat %s" % f, "p": "head -n 2 %s; sleep 0.3; tail -n +3 %s" % (f, f)}[m.group(2)]
+    return "%s(%s)" % ("reload" if m.group(1) == "R" else "reload-sync", cmd)
 
 
 def run_session(ctx, fzf, plan, geoms, record_unsettled=False):
@@ -297,7 +359,8 @@ def run_session(ctx, fzf, plan, geoms, record_unsettled=False):
     sid = "c20x%dx%d" % (os.getpid(), plan.sid)
     kinds = plan.kinds
     cmds = {tag: command(tag, kinds, plan.lead, plan.talls) for tag in TEMPLATES}
-    texts = [item_text(i) + plan.suffix for i in range(plan.nitems)]
+    gens = [gen_texts(plan, g) for g in range(len(plan.gens) + 1)]
+    texts = gens[0]
     geom = geoms[plan.layout]
     args = ["--no-color", "--no-unicode", "--multi", "--no-sort", "--preview", cmds[plan.tag],
             "--preview-window", LAYOUTS[plan.layout] + (",wrap" if plan.wrap else "")]
@@ -305,6 +368,9 @@ def run_session(ctx, fzf, plan, geoms, record_unsettled=False):
     s = tmuxdrv.Session(ctx, fzf, args, input_data="".join(t + "\n" for t in texts), width=PANE[0], height=PANE[1],
                         env={"FZF_VERIF_SID": sid, "VLOG": "pvlog", "VLOCK": "pvlock"})
     log_path = os.path.join(s.dir, "pvlog")
+    for g, tx in enumerate(gens):                 # the reload commands run in the session directory
+        with open(os.path.join(s.dir, "gen%d.txt" % g), "w") as fh:
+            fh.write("".join(t + "\n" for t in tx))
     quiet = None
     quiet_at = None
     visible, tag, markers = True, plan.tag, 0
@@ -316,6 +382,7 @@ def run_session(ctx, fzf, plan, geoms, record_unsettled=False):
 
         def post(body):
             nonlocal visible, tag, gone
+            body = _RELOAD.sub(reload_action, body)
             final = any(a in body for a in ("abort", "accept"))
             st, _ = s.post(body, final=final, timeout=60)
             if final:
@@ -329,13 +396,14 @@ def run_session(ctx, fzf, plan, geoms, record_unsettled=False):
             else:
                 visible ^= (len(re.findall(r"toggle-preview(?!-)", body)) % 2 == 1)
 
+        pre = {}
         for st in plan.steps:
             if gone:
                 break
             if "sleep" in st:
                 time.sleep(st["sleep"])
             elif "burst" in st:
-                n0 = ix.count(st["until"])
+                n0 = pre.get(st["until"], 0) if st.get("rel") == "post" else ix.count(st["until"])
                 k, t1 = 0, time.time()
                 while ix.count(st["until"]) == n0:
                     post(st["burst"])
@@ -343,7 +411,7 @@ def run_session(ctx, fzf, plan, geoms, record_unsettled=False):
                     if k >= 4000 or time.time() - t1 > 20:      # the awaited event is not coming (e.g. window hidden): go on
                         break
             elif "until" in st:
-                n0 = st.get("n0")
+                n0 = pre.get(st["until"], 0) if st.get("rel") == "post" else st.get("n0")
                 want = (ix.count(st["until"]) if n0 is None else n0) + 1
                 try:
                     ix.wait(lambda: ix.counts.get(st["until"], 0) >= want, 2 if st.get("soft") else 30, st["until"])
@@ -351,6 +419,7 @@ def run_session(ctx, fzf, plan, geoms, record_unsettled=False):
                     if s.exited():
                         raise                      # (otherwise: go on, the recorded trace is judged as it is)
             else:
+                pre = dict(ix.update().counts)          # ("rel": "post" = one more such event than before this POST)
                 post(st["post"])
         if plan.observe and not gone:
             deadline = time.time() + (60 if record_unsettled else 120)
@@ -359,6 +428,8 @@ def run_session(ctx, fzf, plan, geoms, record_unsettled=False):
                 post(MARKER % markers)
                 ix.wait_marker(markers)
                 state = analyse(ix.pv, kinds, time.time())
+                if ix.reload_state(time.time()) == "pending":       # the new input has not arrived (completely) yet
+                    state = "busy"
                 if state == "busy":
                     if time.time() > deadline:
                         if not record_unsettled:
@@ -366,15 +437,16 @@ def run_session(ctx, fzf, plan, geoms, record_unsettled=False):
                                 plan.label, json.dumps([{k: v for k, v in e.items() if k not in ("command", "template", "_t")} for e in ix.pv[-8:]])[:1500]))
                         state = "unsettled"
                 if state == "busy":
-                    n = len(ix.pv)
+                    n, nl = len(ix.pv), ix.lists
                     try:
-                        ix.wait(lambda: len(ix.pv) > n, 5, "progress")
+                        ix.wait(lambda: len(ix.pv) > n or ix.lists > nl, 5 if ix.reload_state(time.time()) != "pending" else 0.5, "progress")
                     except Infra:
                         pass
                     continue
                 # candidate quiescence: observe, then make sure nothing but repeated displays happened meanwhile
                 sig0 = [(e["ev"], e.get("version")) for e in ix.pv if e["ev"] != "pv.display"]
                 disp0 = [e for e in ix.pv if e["ev"] == "pv.display"]
+                lists0 = ix.lists
                 get = s.get(timeout=60)
                 if get is None:
                     raise Infra("GET / failed at quiescence")
@@ -399,7 +471,7 @@ def run_session(ctx, fzf, plan, geoms, record_unsettled=False):
                     rows = again
                 ix.update()
                 sig1 = [(e["ev"], e.get("version")) for e in ix.pv if e["ev"] != "pv.display"]
-                if state != "unsettled" and (sig1 != sig0 or analyse(ix.pv, kinds, time.time()) != state):
+                if state != "unsettled" and (sig1 != sig0 or analyse(ix.pv, kinds, time.time()) != state or ix.lists != lists0):
                     if time.time() > deadline + 60:
                         raise Infra("session %s keeps moving" % plan.label)
                     continue
@@ -408,7 +480,7 @@ def run_session(ctx, fzf, plan, geoms, record_unsettled=False):
                 if disp1:
                     nlo = disp0[-1]["nlines"] if disp0 and disp0[-1]["version"] == disp1[-1]["version"] else disp1[-1]["nlines"]
                 cur = get["current"]["index"] if get.get("current") else -1
-                quiet = {"ev": "quiet", "cur": cur, "q": get["query"], "sel": [x["index"] for x in get["selected"]],
+                quiet = {"ev": "quiet", "cur": cur, "curtext": get["current"]["text"] if get.get("current") else "", "reload": ix.reload_state(time.time()), "q": get["query"], "sel": [x["index"] for x in get["selected"]],
                          "visible": visible, "tag": tag, "rows": rows, "nlo": nlo, "procs": pgids(prev), "overlaps": overlaps, "log": recs,
                          "state": state, "waited": [round(t_prompt, 2), round(time.time() - t1, 2), markers]}
                 quiet_at = ix.n
@@ -436,7 +508,7 @@ def run_session(ctx, fzf, plan, geoms, record_unsettled=False):
         exit_ev = {"ev": "exit", "how": plan.leave, "status": status, "survivors": pgids(prev), "overlaps": overlaps}
         kill_all(prev)
         tr = list(s.trace())
-        return project(plan, texts, cmds, tr, quiet, quiet_at, exit_ev, geom)
+        return project(plan, gens, cmds, tr, quiet, quiet_at, exit_ev, geom)
     finally:
         try:
             s.close()
@@ -450,19 +522,40 @@ SCROLLS = ("preview-up", "preview-down", "preview-page-up", "preview-page-down",
            "preview-top", "preview-bottom")
 
 
-def project(plan, texts, cmds, tr, quiet, quiet_at, exit_ev, geom):
+def project(plan, gens, cmds, tr, quiet, quiet_at, exit_ev, geom):
+    """gens[k]: the lines of input generation k (what the reload command for it prints)."""
     tagof = {c: t for t, c in cmds.items()}
-    evs = [{"ev": "begin", "sid": plan.sid, "texts": texts, "tmpls": TEMPLATES, "kinds": plan.kinds, "talls": plan.talls,
+    major, content, content_of = 0, 0, {0: 0}    # t.revision.major; which generation's lines it holds; by major revision
+
+    def add_quiet():
+        # the driver's view of which input is on display must be what fzf reports under the cursor (else: a driver error)
+        if quiet["cur"] >= 0 and (quiet["cur"] >= len(gens[content]) or gens[content][quiet["cur"]] != quiet["curtext"]):
+            raise Infra("session %d: GET / reports line %r at index %d, generation %d (revision %d) has %r there" % (
+                plan.sid, quiet["curtext"], quiet["cur"], content, major, gens[content][quiet["cur"]] if quiet["cur"] < len(gens[content]) else None))
+        evs.append(quiet)
+    evs = [{"ev": "begin", "sid": plan.sid, "texts": gens[0], "tmpls": TEMPLATES, "kinds": plan.kinds, "talls": plan.talls,
             "H": geom[3], "W": geom[2], "wrap": plan.wrap, "layout": LAYOUTS[plan.layout], "tag": plan.tag, "label": plan.label}]
     last_disp = None                             # (only an immediately repeated display is dropped)
     during = ""                                  # the action being executed (term.act ... term.loop happen under t.mutex)
     for i, e in enumerate(tr):
         if quiet is not None and i == quiet_at:
-            evs.append(quiet)
+            add_quiet()
             last_disp = None
         k = e["ev"]
         n0 = len(evs)
-        if k == "term.act":
+        if k == "coord.restart":
+            m = _GENFILE.search(e.get("command", ""))
+            if not m:
+                raise Infra("reader restarted on an unknown command %r" % e.get("command"))
+            content_of[e["rev"][0]] = int(m.group(1))
+        elif k == "term.list":
+            if e["rev"][0] != major:             # Terminal.UpdateList took over the list of another input generation
+                major = e["rev"][0]
+                if major not in content_of:
+                    raise Infra("list of revision %d without a reader restart" % major)
+                content = content_of[major]
+                evs.append({"ev": "reload", "texts": gens[content], "content": content, "rev": major, "seq": e["seq"]})
+        elif k == "term.act":
             during = e.get("act", "")
             if during in SCROLLS:
                 evs.append({"ev": "scroll", "act": during, "seq": e["seq"]})
@@ -497,6 +590,6 @@ def project(plan, texts, cmds, tr, quiet, quiet_at, exit_ev, geom):
         if len(evs) > n0:
             last_disp = None
     if quiet is not None and quiet_at >= len(tr):
-        evs.append(quiet)
+        add_quiet()
     evs.append(exit_ev)
     return evs
